@@ -148,7 +148,8 @@ func genDirection(r *prng.R, dir string, keys []string, pts []*ptypeDef, withEnt
 		if !withEntry && !contains(mustFrom, i) && r.Chance(60) {
 			continue
 		}
-		addFrom(i, contains(mustFrom, i))
+		// the entry node needs an outgoing connection (else "unconnected"), mostly respected
+		addFrom(i, contains(mustFrom, i) || (withEntry && i == 0 && !r.Chance(6)))
 	}
 	if len(cs) == 0 || (!withEntry && r.Chance(30)) {
 		cs = append(cs, connDef{sStart, sEnd})
@@ -176,8 +177,8 @@ func genFlow(r *prng.R, name string, opt genOpts) *flowDef {
 	for i := 0; i < n; i++ {
 		keys[i] = string(rune('A' + i))
 		pts[i] = &vocab[r.Intn(len(vocab))]
-		if i == 0 && r.Chance(60) {
-			pts[i] = &vocab[0]
+		if i == 0 && r.Chance(85) {
+			pts[i] = &vocab[[]int{0, 0, 1, 3}[r.Intn(4)]] // an entry type with outputs in both directions
 		}
 		f.procs = append(f.procs, [2]string{keys[i], pts[i].name})
 	}
@@ -263,6 +264,13 @@ func genCase(r *prng.R, id string) proto.Case {
 		c.flows = append(c.flows, genFlow(r, name, opt))
 		order = append(order, name)
 	}
+	if opt.malformed && nf > 1 && r.Chance(10) {
+		c.flows[1].name = c.flows[0].name // duplicate flow name: the loader refuses everything
+		order = order[:1]
+		for i := 2; i < nf; i++ {
+			order = append(order, c.flows[i].name)
+		}
+	}
 	prng.Shuffle(r, order)
 	if r.Chance(35) {
 		nq := r.Range(1, 2)
@@ -289,13 +297,115 @@ func genCase(r *prng.R, id string) proto.Case {
 	return proto.Case{ID: id, Ops: ops}
 }
 
+// ---------------------------------------------------------------- exhaustive small scope (thorough tier)
+
+type candConn struct{ c connDef }
+
+// enumDirection emits, for every subset of `cands` (in the given order), the case built by `mk`.
+func enumSubsets(cands []connDef, emit func(sel []connDef)) {
+	n := len(cands)
+	for m := 0; m < 1<<n; m++ {
+		var sel []connDef
+		for b := 0; b < n; b++ {
+			if m&(1<<b) != 0 {
+				sel = append(sel, cands[b])
+			}
+		}
+		emit(sel)
+	}
+}
+
+func oracleCombos(keys []string, choices map[string][]string, flow, dir string) []string {
+	res := []string{""}
+	for _, k := range keys {
+		var next []string
+		for _, pre := range res {
+			for _, v := range choices[k] {
+				it := flow + "/" + k + "/" + dir + "=" + v
+				if pre == "" {
+					next = append(next, it)
+				} else {
+					next = append(next, pre+","+it)
+				}
+			}
+		}
+		res = next
+	}
+	return res
+}
+
+// all request directions over A (PM: a, b, answer), B (PA) with every subset of the 14 possible
+// connections; fixed response direction `A -> B -> end` without stream entry... with and without entry.
+func genExhaustive(emit func(proto.Case)) {
+	p := func(k, c string) endp { return endp{'P', k, c} }
+	// (1) request direction: all subsets over two nodes
+	reqC := []connDef{
+		{sStart, p("A", "")}, {sStart, p("B", "")},
+		{p("A", "a"), p("A", "")}, {p("A", "a"), p("B", "")}, {p("A", "b"), p("A", "")}, {p("A", "b"), p("B", "")},
+		{p("B", "a"), p("A", "")}, {p("B", "a"), p("B", "")}, {p("B", "b"), p("A", "")}, {p("B", "b"), p("B", "")},
+		{p("A", "a"), sEnd}, {p("A", "b"), sEnd}, {p("B", "a"), sEnd}, {p("B", "b"), sEnd},
+	}
+	id := 0
+	reqOr := oracleCombos([]string{"A", "B"}, map[string][]string{"A": {"n:a", "n:b", "e:e"}, "B": {"n:a", "n:b"}}, "f1", "req")
+	for _, resEntry := range []bool{false, true} {
+		res := []connDef{{p("A", "e"), p("B", "")}, {p("B", "a"), sEnd}}
+		if resEntry {
+			res = append([]connDef{{sStart, p("B", "")}}, res...)
+		}
+		enumSubsets(reqC, func(sel []connDef) {
+			if len(sel) == 0 {
+				return
+			}
+			c := &caseCfg{ptypes: vocab, flows: []*flowDef{{name: "f1", kind: "user",
+				procs: [][2]string{{"A", "PM"}, {"B", "PA"}}, req: sel, res: res}}}
+			ops := c.opLines()
+			ops = append(ops, "load order=f1")
+			for _, o := range reqOr {
+				ops = append(ops, "txn dir=req o="+o)
+			}
+			id++
+			emit(proto.Case{ID: fmt.Sprintf("xq%d", id), Ops: ops})
+		})
+	}
+	// (2) response direction: all subsets over A (PM), B (PA), C (PU), forward and backward edges among
+	// B, C restricted; the request direction is `start -> A`, `A -a-> B`, `B -> end` and A may answer.
+	resC := []connDef{
+		{sStart, p("B", "")}, {sStart, p("C", "")},
+		{p("A", "e"), p("B", "")}, {p("A", "a"), p("C", "")}, {p("A", "e"), sEnd},
+		{p("B", "a"), p("C", "")}, {p("B", "b"), p("C", "")}, {p("B", "a"), p("A", "")}, {p("B", "a"), sEnd},
+		{p("C", ""), p("B", "")}, {p("C", ""), sEnd}, {p("C", ""), p("A", "")},
+	}
+	req := []connDef{{sStart, p("A", "")}, {p("A", "a"), p("B", "")}, {p("B", "a"), sEnd}, {p("B", "b"), sEnd}}
+	ors := []string{
+		"f1/A/req=e:e,f1/B/res=n:a", "f1/A/req=e:a,f1/B/res=n:b,f1/A/res=n:a", "f1/A/req=n:a,f1/B/req=n:a",
+	}
+	enumSubsets(resC, func(sel []connDef) {
+		if len(sel) == 0 {
+			return
+		}
+		c := &caseCfg{ptypes: vocab, flows: []*flowDef{{name: "f1", kind: "user",
+			procs: [][2]string{{"A", "PM"}, {"B", "PA"}, {"C", "PU"}}, req: req, res: sel}}}
+		ops := c.opLines()
+		ops = append(ops, "load order=f1")
+		for _, o := range ors {
+			ops = append(ops, "txn dir=req o="+o)
+		}
+		ops = append(ops, "txn dir=res o=f1/B/res=n:a,f1/A/res=n:a", "txn dir=res o=f1/B/res=n:b,f1/A/res=n:e")
+		id++
+		emit(proto.Case{ID: fmt.Sprintf("xs%d", id), Ops: ops})
+	})
+}
+
 func gen(r *prng.R, f proto.Flags, emit func(proto.Case)) {
-	n := 250
+	n := 2000
 	if f.Tier == "thorough" {
-		n = 4000
+		n = 20000
 	}
 	n *= f.Budget
 	for k := 0; k < n; k++ {
 		emit(genCase(r.Fork(), fmt.Sprintf("g%d", k+1)))
+	}
+	if f.Tier == "thorough" {
+		genExhaustive(emit)
 	}
 }
